@@ -220,3 +220,22 @@ M("tl-trio-zero-timeout-unbounded", "C16", "httpcore/_backends/trio.py", "      
 M("sup-aread-closes", "C17", "httpcore/_models.py", "            self._content = b\"\".join([part async for part in self.aiter_stream()])\n", "            self._content = b\"\".join([part async for part in self.aiter_stream()])\n            await self.aclose()\n", "C17.R5")
 M("sup-trio-sleep-not-awaited", "C20,C18", "httpcore/_backends/trio.py", "        await trio.sleep(seconds)", "        trio.sleep(seconds)", None)
 M("sup-pool-close-not-awaited", "C18", A + "connection_pool.py", "                await connection.aclose()", "                connection.aclose()", None)
+# ---- rules added in rounds 5 / 6 --------------------------------------------------------------------------
+M("c04-pass-outside-lock", "C04", A + "connection_pool.py",
+  "                with self._optional_thread_lock:\n                    # Assign incoming requests to available connections,\n                    # closing or creating new connections as required.\n                    closing = self._assign_requests_to_connections()\n",
+  "                with self._optional_thread_lock:\n                    pass\n                closing = self._assign_requests_to_connections()\n", "C04.R9")
+M("c12-drain-before-write-lock", "C12", A + "http2.py",
+  "        async with self._write_lock:\n            data_to_send = self._h2_state.data_to_send()\n",
+  "        data_to_send = self._h2_state.data_to_send()\n        async with self._write_lock:\n", "C12.R10")
+M("c19-parse-unchecked-url", "C19", "httpcore/_models.py",
+  "            parsed = urllib.parse.urlsplit(enforce_bytes(url, name=\"url\"))",
+  "            parsed = urllib.parse.urlsplit(url if isinstance(url, bytes) else url.encode(\"utf-8\"))", "C19.R4")
+M("c10-pop-sni-from-shared-extensions", "C10", A + "http_proxy.py",
+  "        async with self._connect_lock:\n            if not self._connected:\n",
+  "        request.extensions.pop(\"sni_hostname\", None)\n        async with self._connect_lock:\n            if not self._connected:\n", "C10.R11")
+M("c08-unlocked-idle-gate", "C08", A + "http11.py",
+  "        async with self._state_lock:\n            if self._state in (HTTPConnectionState.NEW, HTTPConnectionState.IDLE):\n",
+  "        if self._state == HTTPConnectionState.IDLE and self._expire_at is not None and time.monotonic() > self._expire_at:\n            await self.aclose()\n            raise ConnectionNotAvailable()\n        async with self._state_lock:\n            if self._state in (HTTPConnectionState.NEW, HTTPConnectionState.IDLE):\n", "C08.R12")
+M("c18-repr-under-pool-lock", "C18", A + "connection_pool.py",
+  "        closing_connections = []\n\n        # First we handle cleaning up any connections that are closed,",
+  "        closing_connections = []\n        logger = __import__(\"logging\").getLogger(\"httpcore.connection_pool\")\n        logger.debug(\"assignment pass on %r\", self)\n\n        # First we handle cleaning up any connections that are closed,", "C18.R9")
